@@ -14,7 +14,9 @@ use crate::rem::{build_adlt_bin, scratch_dir, verbose_str_payload, Driver, Drive
 use serde_json::{json, Value};
 use std::collections::BTreeMap;
 
-pub struct C13r;
+/// the property id the engine reports under: C13 (pacing clauses) or C07 (the table the remote client has been told
+/// agrees with the delivered messages)
+pub struct C13r(pub &'static str);
 
 /// ECU1: 20 messages 5 s apart (its lifecycle is confirmed after 60 s and keeps growing afterwards);
 /// ECU2: 3 messages at the end (its lifecycle is still buffered when the stream ends)
@@ -202,13 +204,13 @@ fn judge(ctx: &mut Ctx, s: &Scen, r: Result<(Seen, Vec<(String, String, String)>
 impl Prop for C13r {
     fn meta(&self, _t: Tier) -> Meta {
         Meta {
-            id: "C13",
+            id: self.0,
             level: "model_checking",
-            rule: "remote consumer half of C13: the real consumer of `adlt remote` (process_file_context, stepped through the cfg(adlt_verif) driver with explicit receive budgets) against the real pipeline (parser -> lifecycle stage -> [time sort]) on a 23-message file (a confirmed lifecycle that keeps growing + a lifecycle still buffered at the end). The lifecycle stage is held at a gate right before its final publication (hook lifecycle::verif_gate), which makes the two extreme pacings deterministic: 'consumer late' (pipeline finished before the first poll) and 'consumer early' (every message received, one idle poll, only then the final publication), 'consumer late' x {unsorted, sorted} and 'consumer early' x unsorted (the time sort holds its last window back until its input ends), each x every split of the receive budget into 1..2 polls (thorough: 1..3). A filtered stream (ECU2 messages, window [1,3)) is open during the run; the unsorted scenarios are repeated as one-pass sessions with a one-pass query over the whole file and an idle poll (a stall) after every message-bearing poll: the query must deliver every message. Oracle: the lifecycle table the client has been sent (latest info per id) lists every message of the file and is the same for both pacings; the stream delivers exactly the 2nd and 3rd ECU2 message for every pacing and budget split; every step answers, no panic.".into(),
+            rule: "remote consumer engine (second engine of C13 and C07): the real consumer of `adlt remote` (process_file_context, stepped through the cfg(adlt_verif) driver with explicit receive budgets) against the real pipeline (parser -> lifecycle stage -> [time sort]) on a 23-message file (a confirmed lifecycle that keeps growing + a lifecycle still buffered at the end). The lifecycle stage is held at a gate right before its final publication (hook lifecycle::verif_gate), which makes the two extreme pacings deterministic: 'consumer late' (pipeline finished before the first poll) and 'consumer early' (every message received, one idle poll, only then the final publication), 'consumer late' x {unsorted, sorted} and 'consumer early' x unsorted (the time sort holds its last window back until its input ends), each x every split of the receive budget into 1..2 polls (thorough: 1..3). A filtered stream (ECU2 messages, window [1,3)) is open during the run; the unsorted scenarios are repeated as one-pass sessions with a one-pass query over the whole file and an idle poll (a stall) after every message-bearing poll: the query must deliver every message. Oracle: the lifecycle table the client has been sent (latest info per id) lists every message of the file and is the same for both pacings; the stream delivers exactly the 2nd and 3rd ECU2 message for every pacing and budget split; every step answers, no panic.".into(),
             assumptions: vec!["the gate hook sits between the flush of the buffered messages and the final forced refresh of parse_lifecycles_buffered_from_stream (add-only, cfg adlt_verif)".into(), "pacings between the two extremes are covered by the scheduler engine on the library stages, not on the binary's consumer".into()],
             budget_s: (120, 600),
             workers: 1,
-            required_landmarks: vec!["consumer_early", "consumer_late", "one_pass_query_with_stalls"],
+            required_landmarks: if self.0 == "C07" { vec!["consumer_early", "consumer_late"] } else { vec!["consumer_early", "consumer_late", "one_pass_query_with_stalls"] },
         }
     }
     fn prepare(&self, _t: Tier) -> Result<(), String> {
@@ -235,14 +237,19 @@ impl Prop for C13r {
         let mut d = Driver::spawn();
         let mut reference: BTreeMap<bool, View> = BTreeMap::new();
         let mut done = true;
+        // under C07 only the table clauses matter: the unsorted collect-all scenarios
+        let table_only = self.0 == "C07";
         'o: for sorted in [false, true] {
+            if sorted && table_only {
+                continue;
+            }
             for gate in [false, true] {
                 if gate && sorted {
                     // the time sort holds its last window back until its input ends: with the lifecycle stage held at the
                     // gate the consumer cannot receive every message; the early pacing is explored on the unsorted pipeline
                     continue;
                 }
-                for (b, one_pass) in budgets.iter().map(|b| (b, false)).chain(budgets.iter().filter(|_| !sorted).map(|b| (b, true))) {
+                for (b, one_pass) in budgets.iter().map(|b| (b, false)).chain(budgets.iter().filter(|_| !sorted && !table_only).map(|b| (b, true))) {
                     ctx.mine();
                     let s = Scen { gate, sorted, budgets: b.clone(), one_pass };
                     let r = run(&mut d, &file, &s);
